@@ -30,7 +30,7 @@ ASSUMPTIONS = [
 REACH = {"quick": {"op:aggregate": 2000, "op:count": 500, "op:split": 500, "op:modify": 500, "na-key": 1000, "multi-col": 1000,
                    "twin-compared": 1000, "tag:float_hostile": 100, "after-inplace-edit": 500, "tag:big": 4}}
 
-GKINDS = ["int", "str", "float", "bool", "date", "datetime", "lstr", "ustr", "obool", "float", "str", "timedelta", "uint64", "int", "int_be", "datetime_be", "float_be", "oint"]
+GKINDS = ["int", "str", "float", "bool", "date", "datetime", "lstr", "ustr", "obool", "float", "str", "timedelta", "uint64", "int", "int_be", "datetime_be", "float_be", "oint", "datetime_ns", "datetime_s"]
 HELPERS = [("all", {}), ("any", {}), ("count", {}), ("count", {"drop_na": True}), ("count_unique", {}), ("count_unique", {"drop_na": True}),
            ("first", {}), ("first", {"drop_na": True}), ("last", {}), ("last", {"drop_na": True}), ("nth", {"index": 1}), ("nth", {"index": -2}),
            ("min", {}), ("max", {}), ("min", {"drop_na": False}), ("mode", {}), ("mean", {}), ("mean", {"drop_na": False}),
